@@ -52,6 +52,19 @@ impl Check for C02 {
         let nonempty = !lib.structs.is_empty();
         let art = |lib: &gds21::GdsLibrary, bytes: &[u8]| json!({"library": lib_artefact(lib), "bytes": hex(bytes)});
 
+        // history step (1 run in 8): an earlier write on this thread that the encoder refuses part-way (a boundary of
+        // 10 000 points does not fit a record); its outcome is not judged, the writes below must be unaffected
+        if io.borrow_mut().ftape.chance(1, 8) {
+            let mut refused = gds21::GdsLibrary::new("refused_earlier");
+            let mut st = gds21::GdsStruct::new("too_big");
+            st.elems.push(gds21::GdsElement::GdsBoundary(gds21::GdsBoundary { layer: 1, datatype: 0, xy: (0..10_000).map(|i| gds21::GdsPoint::new(i, -i)).collect(), ..Default::default() }));
+            refused.structs.push(st);
+            let mut junk: Vec<u8> = Vec::new();
+            match guard(|| refused.write(&mut junk)) {
+                Ok(Err(_)) => out.probes.hit("history:refused_write_before_the_judged_writes"),
+                _ => out.probes.hit("history:decoy_write_not_refused"),
+            }
+        }
         let sink = SimSink::new(&io, Policy::plain());
         let store = sink.store.clone();
         let bytes0 = match guard(|| lib.write(sink)) {
